@@ -499,7 +499,8 @@ def shard_create_copy(desc, rec):
         stem = f"t_{rng.getrandbits(20):x}"
         target = str(sub / (stem + suffix))
         siblings = {}
-        for sname in {stem + ".tdf", stem, stem + ".TDF", stem + suffix + ".tdf", stem + ".bak"} - {stem + suffix}:
+        for sname in {stem + ".tdf", stem, stem + ".TDF", stem + suffix + ".tdf", stem + ".bak", stem + ".tmp", stem + suffix + ".tmp",
+                      stem + suffix + "~", "." + stem + suffix + ".tmp", stem + ".new", stem + suffix + ".part"} - {stem + suffix}:
             if rng.random() < 0.6:
                 content = rng.choice([b"", b"sibling", rc.encode_container(2, [])])
                 (sub / sname).write_bytes(content)
@@ -541,6 +542,15 @@ def shard_create_copy(desc, rec):
             open(target, "wb").write(tb)
         elif tstate == "directory":
             os.mkdir(target)
+        # now and then the target is given as a bare relative name while the working directory is the target's
+        # directory (and not the source's): the file has to appear where the caller said
+        rel_cwd = None
+        call_target = target
+        if tstate == "absent" and rng.random() < 0.25:
+            rel_cwd = os.getcwd()
+            os.chdir(sub)
+            call_target = os.path.basename(target)
+            rec.count("c17:relative-target-from-another-cwd")
         io_audit.watch(target)
         io_audit.drain()
         io_audit.phase("create:" + which)
@@ -552,7 +562,7 @@ def shard_create_copy(desc, rec):
         copy_how = "outside-context"
         try:
             if which == "new":
-                res = Tdf.new(target)
+                res = Tdf.new(call_target)
             else:
                 # the source may be copied from outside a context, from inside a read-only or a write context, and
                 # also after *another* Tdf object has changed the file since this one entered its context: the
@@ -571,17 +581,17 @@ def shard_create_copy(desc, rec):
                     elif ents:
                         t.remove_block(ents[-1].type)
                 if copy_how == "outside-context":
-                    res = a.copy(target)
+                    res = a.copy(call_target)
                 elif copy_how == "inside-readonly-context":
                     with a:
-                        res = a.copy(target)
+                        res = a.copy(call_target)
                 elif copy_how == "inside-write-context-after-own-mutation":
                     with a.allow_write():
                         try:
                             some_mutation(a)
                         except Exception:
                             pass
-                        res = a.copy(target)
+                        res = a.copy(call_target)
                         if rng.random() < 0.5:
                             # the original goes on changing inside the same context: what the returned object reports
                             # (through its own implicit contexts) stays what the copy holds.  (Byte identity is judged
@@ -599,10 +609,15 @@ def shard_create_copy(desc, rec):
                                 some_mutation(other)
                         except Exception:
                             pass
-                        res = a.copy(target)
+                        res = a.copy(call_target)
                 rec.count(f"c17:copy:{copy_how}")
         except Exception as e:
             err = e
+        finally:
+            if rel_cwd is not None:
+                os.chdir(rel_cwd)
+                if err is None and os.path.isfile(target):
+                    res = Tdf(target)      # (an object holding a relative path means another file from here)
         t1 = int(_t.time()) + 1
         opens = io_audit.drain()
         io_audit.unwatch(target)
